@@ -1,4 +1,5 @@
 use crate::common::Ctx;
+pub mod c05;
 pub mod c13;
 pub mod c18;
 pub mod c10;
@@ -23,6 +24,7 @@ pub fn dispatch(ctx: &mut Ctx) -> bool {
         "C10" => c10::run(ctx),
         "C18" => c18::run(ctx),
         "C13" => c13::run(ctx),
+        "C05" => c05::run(ctx),
         _ => return false,
     }
     true
